@@ -219,7 +219,7 @@ pub fn describe(redeem: &RedeemNode) -> (J, J, J, HashMap<usize, usize>) {
             Inner::Witness(v) => { ax = val_cz(&v.as_ref(), &a.target); json!(["witness", 0, 0]) }
             Inner::Fail(_) => json!(["fail", 0, 0]),
             Inner::Jet(j) => json!(["leaf", 0, 0, [ty_cz(&a.source), ty_cz(&a.target)], "jet", j.to_string()]),
-            Inner::Word(w) => { ax = val_cz(&w.as_value().as_ref(), &a.target); json!(["word", 0, 0]) }
+            Inner::Word(w) => { ax = val_cz(&w.as_value().as_ref(), &a.target); json!(["word", 0, 0, [ty_cz(&a.source), ty_cz(&a.target)]]) }
         };
         dag.push(nd);
         aux.push(ax);
